@@ -136,27 +136,7 @@ theorem assignDest_valueOk {d : ArgDef} {st st' : ArgSt} {v : Word} (e : assignD
 
 /-! ### destinations -/
 
-/-- the converted value (0 where the text does not convert — never the case for an accepted value) -/
-def castOr0 (v : Word) : Int := match lexCastInt v with | .ok n => n | _ => 0
-
-/-- the converted elements of a list value -/
-def castAll (ts : List Word) : List Int := ts.map castOr0
-
-/-- content of a list destination (empty for a destination of another type) -/
-def vecOf : DVal → List Int
-  | .vec l => l
-  | _ => []
-
-/-- level of a LevelCounter destination (0 for a destination of another type) -/
-def levelOf : DVal → Int
-  | .level n => n
-  | _ => 0
-
-/-- one use of a LevelCounter argument: without value increment, with value set -/
-def levelStep (cur : Int) (v : Word) : Int := if v.isEmpty then cur + 1 else castOr0 v
-
-/-- the values given to argument `i`, in order -/
-def valsOf (i : Nat) (us : List Use) : List Word := (us.filter (·.arg = i)).map (·.val)
+-- `castOr0`, `castAll`, `vecOf`, `levelOf`, `levelStep`, `valsOf` are defined in Model/ProgArgs/Spec.lean
 
 theorem valsOf_snoc (i : Nat) (us : List Use) (u : Use) :
     valsOf i (us ++ [u]) = valsOf i us ++ (if u.arg = i then [u.val] else []) := by
